@@ -86,11 +86,11 @@ def all_props():
 
 def cmd_import(wt, prop, rename=None):
     rename = rename or {}
-    for letter in ("A", "B"):
+    letters = [x for x in "ABCDEFGHIJKLMNOP" if os.path.exists(os.path.join(wt, "demo", "patch_%s.diff" % x))]
+    if not letters:
+        print("%s: no patch" % prop)
+    for letter in letters:
         patch = os.path.join(wt, "demo", "patch_%s.diff" % letter)
-        if not os.path.exists(patch):
-            print("%s-%s: no patch" % (prop, letter))
-            continue
         ok, notes = confirm(wt, letter)
         name = "%s-%s" % (prop, rename.get(letter, letter))
         if not ok:
